@@ -2,7 +2,7 @@
 import z3
 
 from contracts.spec import PS
-from pyvc import logic as L
+from pyvc import lib, logic as L
 from pyvc.contract import Contract, LoopSpec
 from pyvc.logic import Forall, LCnd, LForm, LLCnd
 from pyvc.values import *  # noqa
@@ -696,4 +696,57 @@ Contract(
     raises={"ValueError": lambda c: z3.Or(z3.Not(mem_Str(_keys(c), c.world.t)), _crw_stored(c).isnone)},
     properties=["C18"],
     note="a custom ranking answers with the stored rank and refuses (ValueError) exactly the worlds it has no rank for",
+)
+
+
+# ---------------------------------------------------------------------------
+# symbolize_bitvec, implementation level: for a well-formed bitstring the literals returned are, position by position,
+# the atom of the signature (bit != 0) or its negation (bit == 0).  WofN(bv, sig, n) is the set of assignments that agree
+# with the first n bits; the interface contract above (callers' view, Wof(bv)) is this one read with
+#   Wof(bv) := WofN(bv, signature, len(signature))  and  "worlds handed to a ranking are well-formed bitstrings".
+# ---------------------------------------------------------------------------
+def BitOn(bv, i):
+    return int_of_str(chr_at(bv, i)) != 0
+
+
+def LitAt(bv, sig, i):
+    m = L.M(lib.f_sym(LStr.at(sig, i)))
+    return z3.If(BitOn(bv, i), m, L.compl(m))
+
+
+WofN = L.prefix_fun("WofN", [StrSort, LStr.sort], L.WSet, lambda bv, sig: L.FULL, lambda bv, sig, i, prev: L.inter(prev, LitAt(bv, sig, i)))
+# LitsOK(r, bv, sig, n): each of the first n formulas of r denotes the literal of its position
+LitsOK, _ = _IT.defpred_all("LitsOK", [L.LForm.sort, StrSort, LStr.sort, L.Int], lambda x: x[3], lambda x, k: L.M(L.LForm.at(x[0], k)) == LitAt(x[1], x[2], k), lambda x, k: L.LForm.at(x[0], k), step=True)
+_wr = z3.Const("_wn_r", L.LForm.sort)
+_wb = z3.Const("_wn_b", StrSort)
+_ws = z3.Const("_wn_s", LStr.sort)
+_wn = z3.Int("_wn_n")
+# lemma WofN.map (lemmas/zlemmas.py, induction on n)
+WOFN_MAP = Forall([_wr, _wb, _ws, _wn], [L.MAll(_wr, _wn), WofN(_wb, _ws, _wn)], z3.Implies(z3.And(_wn >= 0, LitsOK(_wr, _wb, _ws, _wn)), L.MAll(_wr, _wn) == WofN(_wb, _ws, _wn)), "lemma.WofN.map")
+
+
+def wf_bits(bv, n):
+    """a well-formed bitstring for a signature of n atoms: at least n characters, each of the first n an integer literal"""
+    k = z3.Int("_wfb_k")
+    return [strlen(bv) >= n, Forall([k], [chr_at(bv, k)], z3.Implies(z3.And(0 <= k, k < n), is_int_literal(chr_at(bv, k))), "wf.bits")]
+
+
+SOCF = TObj("PreOCF", {"ranks": RanksT, "signature": TOptional(TList(TStr)), "conditionals": TOpaque})
+
+Contract(
+    "inference.preocf:PreOCF.symbolize_bitvec#impl",
+    params={"self": SOCF, "bitvec": TStr},
+    returns=TList(TForm),
+    requires=lambda c: [z3.Implies(z3.Not(c.field(c.self, "signature").isnone), z3.And(*[f if not isinstance(f, L.Forall) else z3.BoolVal(True) for f in wf_bits(c.bitvec.t, LStr.len(c.field(c.self, "signature").val.t))]))]
+    + [f for f in wf_bits(c.bitvec.t, LStr.len(c.field(c.self, "signature").val.t)) if isinstance(f, L.Forall)],
+    ensures=lambda c, r: [
+        r.len() == LStr.len(c.field(c.self, "signature").val.t),
+        L.MAll(r.t, r.len()) == WofN(c.bitvec.t, c.field(c.self, "signature").val.t, LStr.len(c.field(c.self, "signature").val.t)),
+    ],
+    raises={"ValueError": lambda c: c.field(c.self, "signature").isnone},
+    axioms=[WOFN_MAP],
+    properties=["C16", "C18"],
+    fuel=6,
+    note="for a well-formed bitstring: one literal per atom of the signature, in order, positive exactly where the bit is not 0; "
+    "jointly they denote WofN(bitvec, signature) (lemma WofN.map)",
 )
